@@ -65,3 +65,46 @@ func vInstant(name string) time.Time {
 	vAssume(n > 0 && n < 1<<60)
 	return time.Unix(0, n)
 }
+
+//verif:check C11,C08 stubs=env,valuefile,abslog reach=demoted,waiting,end desc="promote, demote, promote again under one leader: the second promotion is not granted on the strength of the round that served the first one - the node has to reach, in a round begun for this promotion, what the leader holds" bounds="2 nodes; node 2 is a voter carrying the finished round of its earlier promotion; it is demoted, falls behind by the entries appended meanwhile, and is marked Promote again"
+func VH_C11_demote_then_promote() {
+	r, l, _ := vMkLeader(2, 2, false)
+	cfg := r.configs.Latest
+	nd2 := cfg.Nodes[2]
+	vAssume(r.nid == 1 && l.node.Voter && l.node.Action == None)
+	vAssume(nd2.Voter && nd2.Action == Demote)
+	r.configs.Committed = cfg
+	vAssume(r.commitIndex >= l.startIndex && cfg.Index <= r.commitIndex)
+	st := &l.repls[2].status
+	// node 2 was promoted earlier in this term: the round that served that promotion is still attached, finished
+	old := &round{Ordinal: 1, LastIndex: vU64("oldround.lastIndex")}
+	old.Start = vInstant("oldround.start")
+	old.End = vInstant("oldround.end")
+	vAssume(old.LastIndex <= st.matchIndex && old.End.Sub(old.Start) >= 0)
+	st.round = old
+	r.promoteThreshold = 1000
+	// step 1: the pending Demote is executed
+	l.checkConfigAction(nil, cfg, st)
+	vAssume(!r.configs.Latest.Nodes[2].Voter) // the demotion was appended
+	vReach("demoted")
+	// it commits (node 2 acknowledges it), then node 2 stops following: the leader appends more
+	st.matchIndex = r.lastLogIndex
+	l.onMajorityCommit()
+	vAssume(r.configs.IsCommitted())
+	l.storeEntry(&newEntry{entry: &entry{typ: entryUpdate, data: []byte{1}}, task: newTask()})
+	behind := st.matchIndex
+	// step 2: the operator marks node 2 Promote again
+	nc := r.configs.Latest.clone()
+	n2 := nc.Nodes[2]
+	n2.Action = Promote
+	nc.Nodes[2] = n2
+	l.onChangeConfig(changeConfig{task: newTask(), newConf: nc})
+	if r.configs.Latest.Nodes[2].Voter {
+		vReach("repromoted")
+		vAssert(false, "P-lagging-node-not-promoted-on-a-stale-round")
+	} else {
+		vReach("waiting")
+		vAssert(st.round != nil && !st.round.finished() && st.round.LastIndex > behind, "P-fresh-round-targets-what-the-leader-holds-now")
+	}
+	vReach("end")
+}
